@@ -469,7 +469,11 @@ func RandomConfig(p *Program, seed uint64) Config {
 		}
 	}
 	c.ImportPathOverrides = map[string]string{"example.com/api/types": "example.com/moved/types", "example.com/api": "example.com/moved", "types": "example.com/short/types",
-		"example.com/x/wrappers": "example.com/y/wrappers"}
+		"example.com/x/wrappers": "example.com/y/wrappers",
+		// chains: a value that is the key of another entry
+		"example.com/moved/types": "example.com/v2/types", "example.com/v2/types": "example.com/fork/v2/types", "example.com/short/types": "example.com/api/types",
+		"samepkg": "example.com/same/pkg", "example.com/same/pkg": "example.com/same2/pkg", "example.com/same2/pkg": "example.com/same3/pkg"}
+	c.Suffixes["ByChainA"], c.Suffixes["ByChainB"], c.Suffixes["ByChainC"] = "ByChainB", "ByChainC", "ByChainD"
 	c.InjectedFields = map[string][]Injected{}
 	for i, root := range roots {
 		if i < 2 || r.p(1, 3) {
